@@ -255,7 +255,7 @@ func runC05(c *core.Ctx) {
 				}
 				rg := classify(core.EvalEmpty(p, pr.gen, mk(pr.gen)), isMethod)
 				ri := classify(core.EvalEmpty(p, pr.ifc, mk(pr.ifc)), isMethod)
-				key := fmt.Sprintf("%s/%s=%s", pr.key, pr.gen.Params[j].Name(), state)
+				key := fmt.Sprintf("%s/arg%d=%s", pr.key, j, state)
 				c.Check(rg == ri, "R1", key, p.Pos(pr.ifc.Pos()), "both return "+rg,
 					fmt.Sprintf("with %s %s the generic twin (%s) returns %s but the interface{} twin (%s) returns %s", state, pr.gen.Params[j].Name(), p.Pos(pr.gen.Pos()), rg, p.Pos(pr.ifc.Pos()), ri))
 			}
